@@ -287,11 +287,29 @@ func FragmentNameClash(r *core.Rng, s *Schema, d *Doc) bool {
 		if len(ps) == 0 {
 			continue
 		}
+		// first choice: a fragment ON one of the possible types (same GraphQL type as the
+		// implementation struct it collides with); otherwise any other fragment
+		var order []*Fragment
 		for _, g := range d.Frags {
+			for _, p := range ps {
+				if g != f && g.On == p {
+					order = append(order, g)
+				}
+			}
+		}
+		for _, g := range d.Frags {
+			order = append(order, g)
+		}
+		for _, g := range order {
 			if g == f {
 				continue
 			}
 			p := ps[r.Intn(len(ps))]
+			for _, q := range ps {
+				if g.On == q {
+					p = q
+				}
+			}
 			nw := f.Name + strings.ToUpper(p[:1]) + p[1:]
 			taken := false
 			for _, h := range d.Frags {
@@ -331,4 +349,53 @@ func ScalarHazard(r *core.Rng, s *Schema) (string, *Def) {
 		return n, &Def{Kind: "query", Name: "HzScalar", Text: text}
 	}
 	return "", nil
+}
+
+// FragImplClashDefs: fragment F on an interface I and a fragment named F<A> on an implementation
+// A of I (the name genqlient gives F's struct for A), each used by its own operation.
+func FragImplClashDefs(r *core.Rng, s *Schema, tag string) []*Def {
+	for _, f := range s.FieldsOf("Query") {
+		td := s.Get(f.Type.Base())
+		if td == nil || td.Kind != "INTERFACE" {
+			continue
+		}
+		req := false
+		for _, a := range f.Args {
+			if a.Type.NonNull && a.Default == "" {
+				req = true
+			}
+		}
+		if req {
+			continue
+		}
+		ileaf := ""
+		for _, lf := range td.Fields {
+			if s.IsLeaf(lf.Type.Base()) && len(lf.Args) == 0 {
+				ileaf = lf.Name
+			}
+		}
+		if ileaf == "" {
+			continue
+		}
+		for _, p := range s.PossibleTypes(td.Name) {
+			aleaf := ""
+			for _, lf := range s.FieldsOf(p) {
+				if s.IsLeaf(lf.Type.Base()) && len(lf.Args) == 0 && lf.Name != ileaf {
+					aleaf = lf.Name
+				}
+			}
+			if aleaf == "" {
+				continue
+			}
+			fI := "Hz" + tag + "F"
+			fA := fI + strings.ToUpper(p[:1]) + p[1:]
+			return []*Def{
+				{Kind: "fragment", Name: fA, Text: fmt.Sprintf("fragment %s on %s {\n  %s\n}\n", fA, p, aleaf)},
+				{Kind: "fragment", Name: fI, Text: fmt.Sprintf("fragment %s on %s {\n  %s\n}\n", fI, td.Name, ileaf)},
+				{Kind: "query", Name: "Hz" + tag + "Q1", Text: fmt.Sprintf("query Hz%sQ1 {\n  %s {\n    ...%s\n  }\n}\n", tag, f.Name, fA)},
+				{Kind: "query", Name: "Hz" + tag + "Q2", Text: fmt.Sprintf("query Hz%sQ2 {\n  %s {\n    ...%s\n  }\n}\n", tag, f.Name, fI)},
+			}
+		}
+	}
+	return nil
 }
